@@ -54,6 +54,13 @@ let () =
          let file = take nl read_line in
          let r = { r_del = dels; r_add = (if hasadd <> 0 then Some adds else None) } in
          print_endline (show_file (apply_i [r] file))
+       | "R" ->
+         let first = next () in
+         let last0 = next () in
+         let nl = next () in
+         let file = take nl read_line in
+         let rec int_of_nat = function O -> 0 | S n -> 1 + int_of_nat n in
+         print_endline (String.concat " " (List.map (fun n -> string_of_int (int_of_nat n)) (line_range_i file (nat_of_int first) (nat_of_int last0))))
        | _ -> print_endline "?")
     done
   with End_of_file -> ()
